@@ -206,14 +206,20 @@ def r01_2_file_ownership(chk, m):
                         f.where)
     if not done:
         raise AnalysisError("label / record writer calls not found in DLISFile.write")
-    # typestate guard in the record writer
-    g = CFG(wlr.node)
-    first_raises = [n for n in g.reachable(ENTRY, exceptional=False) if g.kind[n] == "raise"]
+    # typestate guard in the record writer (inlined summary: the guard may sit in a helper): a raise under
+    # `not <label written>` before anything is handed to the output buffer
+    from ..terms import SELF, A, contains
+    ws = chk.terms.inline(wlr, 2, stop=lambda g_: g_.name == "__init__")
+    flags = [e.key for f_ in m.writer_cls.methods.values() for e in chk.terms.summary(f_).stores()
+             if e.kind == "store_attr" and e.base == SELF and e.value == ("const", True) and f_ is wsul]
     guard_ok = False
-    for ifn, (te, fe) in g.branch.items():
-        if "_sul_written" in norm(g.stmt[ifn].test):
-            guard_ok = any(g.kind[x] == "raise" for x in g.reachable(te, exceptional=False)
-                           if x not in g.reachable(fe, exceptional=False))
+    for i, e in enumerate(ws.effects):
+        if e.kind == "raise" and any(l == ("not", A(SELF, fl)) for l in e.pc for fl in flags) and len(e.pc) == 1 \
+                and not e.ctx:
+            before = [x for x in ws.effects[:i] if x.kind in ("store_attr", "store_sub") or
+                      (x.kind == "call" and contains(x.value, lambda y: y[0] == "attr" and y[2] in ("add_bytes",
+                                                                                                  "write_bytes")))]
+            guard_ok = not before
     chk.require(guard_ok, "R01.2", "records-refuse-without-label",
                 "the record writer no longer refuses to run before the label was written", wlr.where)
     # the label goes to the file unframed: write_storage_unit_label passes represent_as_bytes().bts straight on
